@@ -1647,8 +1647,9 @@ impl MutableArchive {
                 let het_pos = self.updated_het_pos.or(header.het_table_pos).unwrap_or(0);
                 let bet_pos = self.updated_bet_pos.or(header.bet_table_pos).unwrap_or(0);
 
-                self.file.write_all(&het_pos.to_le_bytes())?;
+                // Published layout: BET position at +0x34, HET position at +0x3C
                 self.file.write_all(&bet_pos.to_le_bytes())?;
+                self.file.write_all(&het_pos.to_le_bytes())?;
             }
         }
 
